@@ -10,13 +10,12 @@ import (
 
 type libModel func(fv *FV, e *Env, x *ast.CallExpr, recv *Value, args []Value) (Value, bool)
 
-var libModels map[string]libModel
+var libModels = map[string]libModel{}
 
 // libModelDocs describes each model in the trusted base.
 var libModelDocs = map[string]string{}
 
 func init() {
-	libModels = map[string]libModel{}
 	bigBin := func(name, doc string, f func(a, b Term) Term) {
 		full := "(*math/big.Int)." + name
 		libModelDocs[full] = doc
